@@ -515,6 +515,70 @@ theorem dispatch_stops_code (prog : Dispatch.Prog) (chs : List Nat) (s : Dispatc
     ∀ s', Dispatch.runFlag placementOfCode prog s chs ≠ .running s' :=
   stops_within_body placementOfCode code_observes_every_back_edge.1 prog chs s h
 
+/-! ### What the decision "this operation cannot block" may depend on (`Model/CancelFastPath.lean`)
+
+Every blocking opcode carries the done case (`code_facts_all`) — on the path that is taken when
+the guard of the direct call is false. These theorems are about the guard. -/
+
+open FastPath in
+/-- a guard that reads the channel (`ch.Len() < ch.Cap()`: "there is room, the send does not
+block") is a check-then-act race: with one free slot, the sender sees room, another goroutine
+fills the slot, the sender makes the direct call and parks in it; the context is cancelled, the
+receivers of the run stop — and whatever happens afterwards, the sender stays parked: `Run` never
+returns. For every capacity. -/
+theorem observed_room_parks_for_ever (cap : Nat) (evs : List FastPath.Ev) :
+    (FastPath.run true ⟨cap, cap + 1, .idle, false⟩ ([.check, .fill, .act, .cancel] ++ evs)).ph
+      = .parkedPlain := by
+  have h0 : FastPath.run true ⟨cap, cap + 1, .idle, false⟩ [.check, .fill, .act, .cancel]
+      = ⟨cap + 1, cap + 1, .parkedPlain, true⟩ := by
+    simp [FastPath.run, FastPath.step]
+  unfold FastPath.run at *
+  rw [List.foldl_append, h0]
+  suffices h : ∀ (evs : List FastPath.Ev) (s : FastPath.St), s.len = s.cap → s.cancelled = true → s.ph = .parkedPlain →
+      (evs.foldl (FastPath.step true) s).ph = .parkedPlain from h evs _ rfl rfl rfl
+  intro evs
+  induction evs with
+  | nil => intro s _ _ h; exact h
+  | cons e es ih =>
+    intro s h1 h2 h3
+    simp only [List.foldl_cons]
+    cases e <;> (apply ih <;> simp [FastPath.step, h1, h2, h3])
+
+open FastPath in
+/-- with the guard `done == nil` alone (false under a cancellable context) the sender never makes
+the direct call, under any interleaving with the other users of the channel -/
+theorem unobserved_guard_never_parks_plain (evs : List FastPath.Ev) (s : FastPath.St)
+    (h : s.ph ≠ .parkedPlain ∧ s.ph ≠ .decidedFast) :
+    (FastPath.run false s evs).ph ≠ .parkedPlain ∧ (FastPath.run false s evs).ph ≠ .decidedFast := by
+  unfold FastPath.run
+  induction evs generalizing s with
+  | nil => exact h
+  | cons e es ih =>
+    simp only [List.foldl_cons]
+    apply ih
+    obtain ⟨pc, cap, ph, c⟩ := s
+    cases e <;> cases ph <;> simp [FastPath.step] at h ⊢ <;> (try split) <;> (try split) <;> simp
+
+open FastPath in
+/-- … and once the context is cancelled its next step, if the buffer is still full, is `vm.stop()` -/
+theorem done_case_wakes (s : FastPath.St) (hc : s.cancelled = true) (hfull : ¬ s.len < s.cap)
+    (hp : s.ph = .decidedSlow ∨ s.ph = .parkedWithDone) : (FastPath.step false s .act).ph = .stopped := by
+  rcases hp with hp | hp <;> simp [FastPath.step, hp, hc, hfull]
+
+-- non-vacuity: the same four events, guard `done == nil`: the sender is stopped by the cancellation
+example : (FastPath.run false ⟨0, 1, .idle, false⟩ [.check, .fill, .act, .cancel, .act]).ph = .stopped := by
+  decide
+
+/-- **generated fact**: the direct Recv / Send / reflect.Select calls of run.go stand under
+`done == nil` and nothing else — except OpSelect's `|| hasDefaultCase`, a variable of the
+activation that is only ever assigned `false` (`select_always_has_done_case`). In particular no
+direct call is decided by what was read from the channel (Len, Cap) a moment before. -/
+theorem fast_paths_decided_without_observation :
+    racyFastPathOfCode = false ∧
+    ScriggoV.Gen.Blocking.fastPathGuards.map (fun g => (g.1, FastPath.guardOf g.2.2)) =
+      [("OpRange", .noContext), ("OpReceive", .noContext), ("OpSelect", .localFlag), ("OpSend", .noContext)] := by
+  decide
+
 /-- `prompt_stop` and `run_returns_ctxErr` for the code as it is -/
 theorem prompt_stop_code (s : Sys) (evs : List Ev) (i : Nat) (v : VM)
     (hflag : s.flag = true) (hwf : WF s) (hv : s.vms[i]? = some v)
